@@ -391,9 +391,20 @@ class Interp(BuiltinsMixin, StmtMixin, DictMixin):
         if isinstance(a, VPy) and isinstance(b, VPy):
             if isinstance(a.obj, tuple) and a.obj and a.obj[0] == "zset":
                 return a.obj[1] == b.obj[1]
+            if isinstance(a.obj, tuple) and a.obj and a.obj[0] == "zdict":
+                return z3.And(a.obj[1] == b.obj[1], a.obj[2] == b.obj[2])
             return z3.BoolVal(a.obj is b.obj or a.obj == b.obj)
         if isinstance(a, VClass) and isinstance(b, VClass):
             return z3.BoolVal(a.name == b.name)
+        if isinstance(b, VFunc) and b.kind == "classof":
+            a, b = b, a
+        if isinstance(a, VFunc) and a.kind == "classof" and \
+                isinstance(b, VClass) and isinstance(a.recv, VRef):
+            # type(x) is C : exact dynamic class
+            return TYPE_OF(a.recv.e) == self.uni.class_id(b.name)
+        if isinstance(a, VPy) and isinstance(b, VPy) and \
+                isinstance(a.obj, tuple) and a.obj and a.obj[0] == "zdict":
+            return z3.And(a.obj[1] == b.obj[1], a.obj[2] == b.obj[2])
         if isinstance(a, VEnum) and isinstance(b, VEnum):
             if a.enum.name != b.enum.name:
                 return z3.BoolVal(False)
@@ -516,6 +527,37 @@ class Interp(BuiltinsMixin, StmtMixin, DictMixin):
         st.write("$card", obj.e, z3.IntVal(0), "int")
         return obj
 
+    def ev_ListComp(self, node, st, fr):
+        if len(node.generators) != 1 or node.generators[0].ifs:
+            raise Unsupported("list comprehension shape")
+        comp = node.generators[0]
+        src = self.ev(comp.iter, st, fr)
+        n, elem, conc = self.iter_desc(src, st, fr)
+        self.uni.note_assumption(
+            "list-comprehension element expressions are evaluated as pure, "
+            "exception-free expressions")
+
+        def body(x):
+            env = dict(fr.env)
+            self.assign_env(comp.target, x, env)
+            sub = Frame(fr.func, fr.cls, fr.contract, env=env, spec=True)
+            sub.old, sub.self_val = fr.old, fr.self_val
+            sub.relpath = getattr(fr, "relpath", None)
+            return self.ev(node.elt, st, sub)
+        if conc is not None:
+            vals = [body(x) for x in conc]
+            return self.list_from(vals, st) if vals else \
+                self.bi_list([], {}, st, fr)
+        i = z3.Int(fresh_name("lc"))
+        v = body(elem(i))
+        tag = v.cls if isinstance(v, VRef) else v.tag
+        lst = self.alloc(st, "list", tag or "ref", "lcomp")
+        arr = fresh("lcomp_items", z3.ArraySort(INT, self.to_z3(v).sort()))
+        self.set_list(lst, st, arr, n)
+        st.assume(z3.ForAll([i], z3.Implies(z3.And(0 <= i, i < n),
+                                            arr[i] == self.to_z3(v))))
+        return lst
+
     def ev_JoinedStr(self, node, st, fr):
         # f-strings made only of literal text and plain {expr} of string
         # (or integer) value are exact concatenations ...
@@ -627,9 +669,19 @@ class Interp(BuiltinsMixin, StmtMixin, DictMixin):
 
     def ev_BoolOp(self, node, st, fr):
         if fr.spec:
-            vals = [self.truth(self.ev(v, st, fr), st) for v in node.values]
-            return VBool(z3.And(vals) if isinstance(node.op, ast.And)
-                         else z3.Or(vals))
+            # logical connective; operands after a syntactically decided one
+            # are not evaluated (so 'x is not None and len(x) > 0' is fine)
+            vals = []
+            is_and = isinstance(node.op, ast.And)
+            for sub in node.values:
+                t = self.truth(self.ev(sub, st, fr), st)
+                ts = z3.simplify(t)
+                if is_and and z3.is_false(ts):
+                    return VBool(False)
+                if not is_and and z3.is_true(ts):
+                    return VBool(True)
+                vals.append(t)
+            return VBool(z3.And(vals) if is_and else z3.Or(vals))
         is_and = isinstance(node.op, ast.And)
         val = None
         for i, sub in enumerate(node.values):
@@ -707,13 +759,25 @@ class Interp(BuiltinsMixin, StmtMixin, DictMixin):
                          [z3.BoolVal(False)])
         if isinstance(cont, VPy) and not (isinstance(cont.obj, tuple) and
                                           cont.obj and cont.obj[0] in (
-                                              "zset", "dictkeys")):
+                                              "zset", "dictkeys",
+                                              "dictvalues", "dictitems")):
             if isinstance(cont.obj, dict):
                 keys = list(cont.obj.keys())
             else:
                 keys = list(cont.obj)
             return z3.Or([self.equal(item, self.lift(k), st) for k in keys]
                          or [z3.BoolVal(False)])
+        if isinstance(cont, VPy) and isinstance(cont.obj, tuple) and \
+                cont.obj and cont.obj[0] in ("dictvalues", "dictkeys"):
+            d = cont.obj[1]
+            dom = self.d_dom(d, st)
+            if cont.obj[0] == "dictkeys":
+                return z3.Select(dom, self.to_z3(item))
+            kt, vt = d.elem
+            k = z3.Const(fresh_name("dk"), sort_of(base_tag(kt)))
+            val = self.mkval(z3.Select(self.d_map(d, st), k), vt)
+            return z3.Exists([k], z3.And(z3.Select(dom, k),
+                                         self.equal(val, item, st)))
         if isinstance(cont, VPy) and isinstance(cont.obj, tuple) and \
                 cont.obj and cont.obj[0] == "zset":
             return z3.Select(cont.obj[1], self.to_z3(item))
@@ -990,6 +1054,15 @@ class Interp(BuiltinsMixin, StmtMixin, DictMixin):
             name = node.func.id
             if name in ("forall", "exists"):
                 return self.spec_quant(name, node, st, fr)
+            if name == "implies" and len(node.args) == 2 and \
+                    "implies" not in fr.env:
+                # the consequent is not evaluated under a hypothesis that is
+                # syntactically false (None-guards)
+                a = self.truth(self.ev(node.args[0], st, fr), st)
+                if z3.is_false(z3.simplify(a)):
+                    return VBool(True)
+                b = self.truth(self.ev(node.args[1], st, fr), st)
+                return VBool(z3.Implies(a, b))
             if name == "old":
                 if fr.old is None:
                     raise Unsupported("old() outside a postcondition")
